@@ -280,29 +280,48 @@ Definition round_trip (p : policy) (cn : cancel) (bd : body) (st : bstate) (sc :
   rt_loop (rt_fuel p) p cn bd st sc t 0 [].
 
 (* ------------------------------------------------------------------ *)
-(* auth.Client.Do over the retrying transport (fresh client: empty token cache).
-   Only what matters for re-sending: first send; on 401 with a Basic or Bearer
-   challenge rewind the body and send once more. *)
+(* auth.Client.Do over the retrying transport.  Only what matters for re-sending:
+   first send; on 401 with a Basic or Bearer challenge rewind the body and send
+   again (once for an empty token cache, possibly twice for a warm one). *)
 
 Definition recognised (ch : N) : bool := ((ch =? 1) || (ch =? 2))%N.
 
-Record auth_out := mkAuth { a_res : result; a_first : list event; a_second : list event; a_time : Z }.
+Record auth_out := mkAuth {
+  a_res : result; a_first : list event; a_second : list event; a_third : list event; a_time : Z
+}.
 
 (* a 401 answer carrying a Basic or Bearer challenge *)
 Definition challenged (r : result) : bool :=
   match r with RResp c ch => (c =? 401) && recognised ch | _ => false end.
+Definition bearer_challenged (r : result) : bool :=
+  match r with RResp c ch => (c =? 401) && (ch =? 2)%N | _ => false end.
+Definition unauthorized (r : result) : bool :=
+  match r with RResp c _ => c =? 401 | _ => false end.
 
-Definition auth_do (p : policy) (cn : cancel) (bd : body) (sc : list beh) : auth_out :=
+Definition rewind_error (rw : rewind_result) : result :=
+  match rw with RwGetBodyErr => RGetBodyFailed | _ => RNotRewindable end.
+
+(* [warm] = the token cache already holds a Bearer token for the scope the challenge
+   names (but none for the request's own scope key): Do first re-sends with the
+   cached token and, if that is refused too, fetches a fresh token and sends a third
+   time.  Every re-send is preceded by rewindRequestBody. *)
+Definition auth_do (warm : bool) (p : policy) (cn : cancel) (bd : body) (sc : list beh) : auth_out :=
   let o1 := round_trip p cn bd (init_state bd) sc 0 in
   if challenged (o_res o1) then
     match rewind bd (o_st o1) with
-    | RwNoGetBody => mkAuth RNotRewindable (o_trace o1) [] (o_time o1)
-    | RwGetBodyErr => mkAuth RGetBodyFailed (o_trace o1) [] (o_time o1)
     | RwOk st2 =>
       let o2 := round_trip p cn bd st2 (o_script o1) (o_time o1) in
-      mkAuth (o_res o2) (o_trace o1) (o_trace o2) (o_time o2)
+      if warm && bearer_challenged (o_res o1) && unauthorized (o_res o2) then
+        match rewind bd (o_st o2) with
+        | RwOk st3 =>
+          let o3 := round_trip p cn bd st3 (o_script o2) (o_time o2) in
+          mkAuth (o_res o3) (o_trace o1) (o_trace o2) (o_trace o3) (o_time o3)
+        | rw => mkAuth (rewind_error rw) (o_trace o1) (o_trace o2) [] (o_time o2)
+        end
+      else mkAuth (o_res o2) (o_trace o1) (o_trace o2) [] (o_time o2)
+    | rw => mkAuth (rewind_error rw) (o_trace o1) [] [] (o_time o1)
     end
-  else mkAuth (o_res o1) (o_trace o1) [] (o_time o1).
+  else mkAuth (o_res o1) (o_trace o1) [] [] (o_time o1).
 
 (* manifestStore.push: an *auth.Client and a body without GetBody => the content is
    buffered in memory and GetBody installed *)
